@@ -74,3 +74,74 @@ def solve_all(items, timeout_ms=10000, second=True, procs=None, want_model=True)
         for r in ex.map(_solve_text, args):
             out[r[0]] = r[1:]
     return out
+
+
+def split_forms(text):
+    """top-level s-expressions of an SMT-LIB script (handles "strings" and |quoted symbols|)"""
+    forms, depth, start, i, n = [], 0, None, 0, len(text)
+    while i < n:
+        ch = text[i]
+        if ch == '"':
+            i += 1
+            while i < n and text[i] != '"':
+                i += 1
+        elif ch == '|':
+            i += 1
+            while i < n and text[i] != '|':
+                i += 1
+        elif ch == ';' and depth == 0:
+            while i < n and text[i] != '\n':
+                i += 1
+        elif ch == '(':
+            if depth == 0:
+                start = i
+            depth += 1
+        elif ch == ')':
+            depth -= 1
+            if depth == 0:
+                forms.append(text[start:i + 1])
+        i += 1
+    return forms
+
+
+def group_texts(group):
+    """one one-shot script per check of the group: declarations + shared hypotheses + that goal only"""
+    forms = split_forms(group['prelude'])
+    n = len(group['checks'])
+    asserts = [i for i, f in enumerate(forms) if f.startswith('(assert')]
+    sel = asserts[len(asserts) - n:]
+    selset = set(sel)
+    common = '\n'.join(f for i, f in enumerate(forms) if i not in selset)
+    out = []
+    for (oname, kind, info, p), si in zip(group['checks'], sel):
+        out.append((oname, kind, common + '\n' + forms[si] + '\n(assert %s)\n(check-sat)\n' % p))
+    return out
+
+
+def solve_groups(groups, timeout_ms=10000, second=True, procs=None, short=()):
+    """groups: [dict(prelude, checks=[(oname, kind, info, pvar)])].  Every check is run one-shot in
+    its own solver process (the hypotheses are serialised once per group).  Pass 1: z3 5.1 only,
+    short budget; pass 2: what is left, full budget, with model and the second-opinion solvers.
+    Obligation kinds starting with a prefix in `short` get a 3 s budget and no second opinion."""
+    procs = procs or min(16, os.cpu_count() or 4)
+    out = {}
+    items = []
+    for g in groups:
+        items += group_texts(g)
+    if not items:
+        return out
+    first = min(timeout_ms, 3000)
+    with ThreadPoolExecutor(max_workers=procs) as ex:
+        for r in ex.map(_solve_text, [(n, t, first, False, False) for n, k, t in items]):
+            out[r[0]] = r[1:]
+    retry = []
+    for n, k, t in items:
+        if out[n][0] != 'unsat':
+            is_short = any(k.startswith(s) for s in short)
+            retry.append((n, t, 3000 if is_short else timeout_ms, second and not is_short, True))
+    if retry:
+        with ThreadPoolExecutor(max_workers=procs) as ex:
+            for r in ex.map(_solve_text, retry):
+                prev = out[r[0]]
+                out[r[0]] = (r[1], r[2], prev[2] + r[3], r[4])
+    return out
